@@ -53,6 +53,14 @@ def inst(wall, tz):
     return pd.Timestamp(wall, tz=tz)
 
 
+def plain_wall(p, tz):
+    """the wall-clock time of the instant names it uniquely (no repeated hour of a switch back)"""
+    try:
+        return inst(iso(p.tz_localize(None)), tz) == p
+    except Exception:
+        return False
+
+
 def hours(a, b):
     """elapsed time between two instants in hours"""
     return (b - a).total_seconds() / 3600.0
@@ -123,6 +131,7 @@ def gen_case(rnd, family=None):
     c = {'family': family, 'how': how, 'grid': g, 'kind': kind, 'units': [ua, ub], 'split': None, 'afreq': None, 'win': [None, None]}
     # cuts at which a window may begin / end: local midnights on fine grids (so that a coarse daily step is never cut), any point otherwise
     cuts = day_cuts(pts, tz) if kind == 'fine' else list(range(T + 1))
+    cuts = [i for i in cuts if plain_wall(pts[i], tz)]
     inner = [i for i in cuts if 0 < i < T]
     if ('late' in how or how == 'inside') and inner:
         i0 = rnd.choice(inner if how != 'inside' else inner[:-1] or inner)
@@ -163,6 +172,10 @@ def gen_case(rnd, family=None):
             # (later intervals first: the first interval is the one place where a split optimisation cannot go wrong)
             groups = sorted(rnd.sample(groups[1:] or groups, min(2, len(groups[1:] or groups))), key=lambda x: x[0])
         cyc = []
+        # (a step is addressed by the wall-clock times of its two ends: only steps whose ends are unambiguous local times - not the
+        #  repeated hour of a switch back)
+        okp = [plain_wall(p, tz) for p in pts]
+        groups = [[t for t in grp if okp[t] and okp[t + 1]] for grp in groups]
         for grp in groups[:2]:
             if len(grp) < 2:
                 continue
@@ -234,8 +247,10 @@ def scenario(c, unit):
     if c['win'][1]:
         w['end'] = D(c['win'][1])
     fq = {'freq': c['afreq']} if c['afreq'] else {}
-    big = 1e4
     fam = c['family']
+    # capacity of the counterparties: ample (a multiple of what can flow at all), not huge (numerics of the LP solver)
+    big = {'inflow': 8.0 * c.get('cap_out', 0) + 8.0 * c.get('cap_in', 0), 'holding': 8.0 * c.get('V', 0) / c.get('eff_in', 1.0) / c.get('min_h', 1.0),
+           'fixcost': 8.0 * c.get('r', 0) * max(1.0, c.get('smax', 1.0)), 'running': 8.0 * c.get('hi', 0), 'limit': 8.0 * c.get('r', 0)}[fam]
     if fam == 'inflow':
         st = dict({'size': c['size'], 'cap_in': c['cap_in'] * k, 'cap_out': c['cap_out'] * k, 'start_level': c['l0'], 'end_level': c['l1'],
                    'inflow': c['q'] * k}, **w, **fq)
@@ -302,7 +317,8 @@ def solve(s, split=None, mip=False):
                 op = portf.setup_split_optim_problem(prices, tg, interval_size=split)
             else:
                 op = portf.setup_optim_problem(prices, tg)
-            res = op.optimize(solver='SCIP') if mip else op.optimize()
+            # (one exact solver for LPs and MIPs: the default interior-point solver now and then reports 'inaccurate')
+            res = op.optimize(solver='SCIP')
         if isinstance(res, str):
             return {'status': res}
         with impl.Quiet():
@@ -351,12 +367,30 @@ def expectations(c):
     if fam == 'inflow':
         ex['released'] = (c['l0'] - c['l1']) * (len(ivals) if c['split'] else 1) + c['q'] * E
     elif fam == 'holding':
-        val = 0.0
-        hold = 0.0
-        for cy in c['cycles']:
-            Eh = hours(pts[cy['i']], pts[cy['j']])
-            val += c['V'] * cy['ps'] - c['V'] / c['eff_in'] * cy['pb'] - c['h'] * c['V'] * Eh
-            hold += c['h'] * c['V'] * Eh
+        # events in time order: (step, +1 buy / -1 sell, price).  The level after each event lies in [0, V], rises only at a buy and falls only
+        # at a sell, is 0 at the end of each optimisation interval; holding a level l from one event to the next costs cost_store x l x elapsed
+        # time between the two steps.  The constraints are difference constraints: the optimum is attained with levels in {0, V} (enumerated)
+        ev = sorted([(cy['i'], 1, cy['pb']) for cy in c['cycles']] + [(cy['j'], -1, cy['ps']) for cy in c['cycles']])
+        val, hold = 0.0, 0.0
+        for a, b in zip(cuts[:-1], cuts[1:]):
+            evs = [e for e in ev if a <= pts[e[0]] < b]
+            best = (0.0, 0.0)
+            for m in range(2 ** len(evs)):
+                lv = [c['V'] * ((m >> k) & 1) for k in range(len(evs))]
+                prev, v, hc, ok = 0.0, 0.0, 0.0, True
+                for k, (t, sgn, price) in enumerate(evs):
+                    d = lv[k] - prev
+                    if d * sgn < 0:
+                        ok = False
+                        break
+                    v -= (d / c['eff_in'] * price) if sgn > 0 else (d * price)
+                    if k + 1 < len(evs):
+                        hc += c['h'] * lv[k] * hours(pts[t], pts[evs[k + 1][0]])
+                    prev = lv[k]
+                if ok and prev == 0.0 and v - hc > best[0]:
+                    best = (v - hc, hc)
+            val += best[0]
+            hold += best[1]
         ex['value'] = val
         ex['holding_cost'] = hold
     elif fam == 'fixcost':
